@@ -51,7 +51,7 @@ pub fn plan(prop: &str, tier: &str) -> Vec<RunSpec> {
         "C11" => cross(merges, &[(Flood, 1), (Conveyor, 1), (Generic, 4), (Groups, 2), (Budget, 1), (Starve, 1), (Oscillate, 1)], &mut p),
         "C12" => cross(all, &[(Flood, 1), (Generic, 3), (StaleBacklog, 2), (Budget, 1), (Groups, 2)], &mut p),
         "C13" => cross(&[FUB, FU, FOB, FO, MB, MU, BU, BO, TBU, TBO, FEC], &[(Flood, 1), (Starve, 4), (Budget, 2), (Groups, 2), (Generic, 1), (Conveyor, 3), (StaleBacklog, 1)], &mut p),
-        "C14" => cross(all, &[(Flood, 1), (StaleBacklog, 3), (Generic, 3), (Groups, 2), (Budget, 1), (TaskSwap, 1), (Cap, 1)], &mut p),
+        "C14" => cross(all, &[(Flood, 1), (StaleBacklog, 3), (Generic, 3), (Groups, 2), (Budget, 1), (TaskSwap, 1), (Cap, 1), (Stall, 1)], &mut p),
         "C15" => cross(&[FUB, FU, FOB, FO, MB, MU, BU, BO, TBU, TBO, FEC], &[(Cap, 4), (Generic, 2), (Wrap, 1), (Groups, 1)], &mut p),
         "C16" => cross(&[BO, TBO], &[(Flood, 1), (Stall, 4), (Generic, 3), (Budget, 1), (Wrap, 1)], &mut p),
         "C17" => cross(&[FUB, FU, FOB, FO, MB, MU, BU, BO, TBU, TBO], &[(Generic, 4), (Cap, 1), (Stall, 1), (Groups, 1)], &mut p),
